@@ -371,6 +371,9 @@ def _work(job):
             # does the deviation disappear when the rejected additions are left out?
             d2 = run_behaviour(beh, big=big, cache_mb=cache_mb, skip_bad=True)
             if d2 is None:
+                # a rejected addition that leaves a trace is C10's clause; what then goes wrong (length, index,
+                # iteration, lookup) is at the same time a violation of the property the operation belongs to
+                d['also'] = d['prop']
                 d['prop'] = 'C10'
                 d['desc'] += ' [only when preceded by a rejected addition]'
                 d['what'] = 'after-rejected-add:' + d['what']
@@ -482,7 +485,7 @@ def replay_store(ctx, behaviours, pid: str, big=False, cache_mb=None):
             continue
         if 'machinery' in d:
             raise MachineryError('replay worker failed: ' + d['machinery'])
-        if d['prop'] == pid:
+        if d['prop'] == pid or d.get('also') == pid:
             key = f'{d["op"]}:{d["what"]}' if d['op'] != 'addbad' else f'addbad:{d["arg"]}:{d["what"]}'
             ctx.violation(key, d['desc'], {'behaviour': beh, 'deviation': d, 'big': big, 'cache_mb': cache_mb})
         else:
